@@ -302,11 +302,13 @@ mod verif_kani {
         );
     }
 
-    /// `is_sorted_by_key` answers "keys are in non-decreasing order" for every 3-entry map.
+    /// `is_sorted_by_key` answers "keys are in ascending order" for every map of up to 3 entries.
     #[kani::proof]
     #[kani::unwind(5)]
     fn c11_vec_map_is_sorted_by_key_bounded() {
         let (k0, k1, k2): (u8, u8, u8) = (kani::any(), kani::any(), kani::any());
+        // keys of a map are distinct (`insert_hashed_unique_unchecked` requires it)
+        kani::assume(k0 != k1 && k1 != k2 && k0 != k2);
         let mut m: VecMap<u8, u8> = VecMap::new();
         assert!(m.is_sorted_by_key());
         put(&mut m, k0, 0);
